@@ -87,6 +87,9 @@ func cmdCheck(prop, tier string) int {
 	}
 	verif := filepath.Dir(*flagSpecs)
 	evDir := filepath.Join(verif, "evidence")
+	if *flagEvDir != "" {
+		evDir = *flagEvDir
+	}
 	os.MkdirAll(filepath.Join(evDir, "replay"), 0o755)
 	evFile := filepath.Join(evDir, prop+".json")
 	fail := func(err error) int {
@@ -94,6 +97,11 @@ func cmdCheck(prop, tier string) int {
 		// machinery failure is not a property violation; leave no stale evidence behind
 		os.Remove(evFile)
 		return 2
+	}
+	if old, _ := filepath.Glob(filepath.Join(evDir, "replay", prop+"__*.json")); old != nil {
+		for _, f := range old {
+			os.Remove(f)
+		}
 	}
 	ss, err := loadSpecs(*flagRepo, *flagSpecs)
 	if err != nil {
@@ -239,7 +247,7 @@ func cmdCheck(prop, tier string) int {
 			continue
 		}
 		nviol++
-		rpath := filepath.Join(evDir, "replay", san(o.Name)+".json")
+		rpath := filepath.Join(evDir, "replay", prop+"__"+san(o.Name)+".json")
 		b, _ := json.MarshalIndent(rep, "", " ")
 		os.WriteFile(rpath, b, 0o644)
 		line := fmt.Sprintf("VIOLATION property=%s replay=%s", prop, rpath)
